@@ -31,7 +31,7 @@ ASSUMPTIONS = [
     'required is that later operations behave as on a fresh object',
     'private dispatcher state is recorded in witnesses as a diagnosis only',
 ]
-REQUIRED = {'multi_round_fault_runs': 6, 'cascading_watcher_programs': 50, 'faulted_runs': 2000, 'faults_fired': 1500, 'probe_deliveries': 5000, 'in_batch_runs': 500,
+REQUIRED = {'multi_round_fault_runs': 5, 'cascading_watcher_programs': 50, 'faulted_runs': 2000, 'faults_fired': 1500, 'probe_deliveries': 5000, 'in_batch_runs': 500,
             'fault_watcher': 300, 'fault_updatekey': 300, 'fault_body': 200, 'failed_constructors': 10, 'class_level_cases': 5}
 
 _st = {}
